@@ -442,6 +442,17 @@ def labeldom(ctx: Any) -> List[Ob]:
     return obs
 
 
+@rule('C02.FAITHFUL', 'N', expect_min=10)
+def faithful(ctx: Any) -> List[Ob]:
+    """Two structural parts of `the decoded records equal the strict parser's`: the NSEC bitmap reader numbers the types as
+    RFC 4034 does (also in windows other than 0), and the record constructors keep what the decoder hands them (a
+    constructor that clamps a TTL or re-cases a name makes a valid datagram decode to something else).  The layout of the
+    records themselves is C01.LAYOUT."""
+    from .c01 import ctor_verbatim_obligations, nsec_reader_obligation
+
+    return [nsec_reader_obligation(ctx, 'C02.FAITHFUL')] + ctor_verbatim_obligations(ctx, 'C02.FAITHFUL')
+
+
 @rule('C02.STATELESS', 'N', expect_min=10)
 def stateless(ctx: Any) -> List[Ob]:
     """The decoded result is a function of the datagram alone: nothing reachable from the decoder mutates a mutable
@@ -474,4 +485,4 @@ EXPLANATION_ADDENDUM = (
 )
 EXPLANATION = EXPLANATION + EXPLANATION_ADDENDUM
 
-RULES = [total, depth, loops, namelen, guard, labeldom, stateless]
+RULES = [total, depth, loops, namelen, guard, labeldom, faithful, stateless]
